@@ -28,7 +28,7 @@ func (pipeline) Name() string    { return "pipeline" }
 func (pipeline) Props() []string { return []string{"C01"} }
 func (pipeline) Runs(tier string) int64 {
 	if tier == "thorough" {
-		return 300000
+		return 2000000
 	}
 	return 8000
 }
